@@ -105,7 +105,7 @@ def run(ctx):
     ctx.run("C04-P1a", "operators receive the parent by shared reference or by value", p1a_signatures, floor=40)
     ctx.run("C04-P1b", "no interior mutability in any library ADT field / owned closure capture / global; InsertionContext reachability", p1b_no_interior_mutability, floor=4)
     ctx.run("C04-P1c", "library crates keep #![forbid(unsafe_code)] and contain no unsafe", p1c_forbid_unsafe, floor=4)
-    ctx.run("C04-T1", "typestate: no hand-over function returns a solution with a possibly stale route", c05.t1_handover, floor=30)
+    ctx.run("C04-T1", "typestate: no hand-over function returns a solution with a possibly stale route", c05.t1_handover, floor=25)
     try:
         from . import c01
         ctx.run("C01-L1", "every tour removal is guarded by the locked-jobs set (pinned jobs stay)", c01.l1_locked_guard, floor=10)
